@@ -137,6 +137,22 @@ def gen_mid_dataset(rng, big=False):
                 Xn=np.zeros((0, m)), Yn=np.zeros((0, p)), centred=True)
 
 
+def gen_large_dataset(rng, n):
+    """Many samples, few features, for fits FORCED into sample space (n x n Gram matrix); the targets
+    are centred or not (X always is).  Python oracle only: an n x n literal is too big for a shard."""
+    g = P.np_rng(rng)
+    m = rng.randint(3, 6)
+    p = rng.choice([1, 2])
+    X = g.normal(size=(n, m)) * np.linspace(2.0, 0.5, m)
+    X = X - X.mean(axis=0)
+    Y = X @ g.normal(size=(m, p)) + 0.3 * g.normal(size=(n, p))
+    Y = Y - Y.mean(axis=0)
+    if rng.random() < 0.4:
+        Y = Y + g.normal(size=(1, p)) * 2.0
+    return dict(family="large-n", n=n, m=m, p=p, q=0, rank_made=None, X=X, Y=Y,
+                Xn=np.zeros((0, m)), Yn=np.zeros((0, p)), centred=True)
+
+
 # ------------------------------------------------------------------- implementation drivers
 def make_regressor(ds, cfg, cache=None):
     """(regressor parameter, Y to pass, W to pass, description of the reference regression).
